@@ -64,6 +64,8 @@ def view_apply(P, pos, rev, st, op):
         return pos[::-1], not rev, st
     if k in ("cp", "dc"):
         return list(pos), rev, st
+    if k == "i":        # integer index: the one-residue view x[i]
+        return [pos[op[1]]], rev, st
     if k == "dg":
         return [i for i in pos if P[i] not in GAPS], rev, st
     if k == "f":
@@ -213,6 +215,8 @@ def real_seq_apply(x, op):
         return x.copy()
     if k == "dc":
         return _copy.deepcopy(x)
+    if k == "i":
+        return x[op[1]]
     if k == "dg":
         return x.degap()
     if k == "f":
@@ -253,9 +257,10 @@ def seq_other_ops(m, rid):
     P, off = SEQ_ROOTS[rid]
     fops = [["f", n, [i - off for i in feat_positions(sp)], strand]
             for n, _bt, sp, strand in SEQ_FEATS[rid] if len(sp) == 1 and n in ("a", "b", "h")]
+    ints = [["i", k] for k in sorted({0, 1, m // 2, m - 1}) if 0 <= k < m] + ([["i", -1], ["i", -m]] if m else [])
     return [["rc"], ["cp"], ["dc"], ["dg"], ["s", None, None, -1], ["s", None, None, 2], ["s", 1, None, 2],
             ["s", 1, m - 1, 3], ["s", m - 2, 0, -1], ["s", -3, None, None], ["s", None, -2, None],
-            ["s", None, None, -2]] + fops
+            ["s", None, None, -2]] + fops + ints
 
 
 def featsets_for(h, names):
@@ -289,9 +294,18 @@ def gen_seq(tier, seed):
                 if not thorough:
                     second = second[::3] if m > 5 else second[::2]
                 hist += [[o1, o2] for o2 in second]
+            # an integer index on a view whose coordinates come from a copy (the copy of a slice starts at an offset)
+            for a_, b_ in ((2, L - 1), (1, L), (3, L - 2)):
+                if not 0 <= a_ < b_ <= L:
+                    continue
+                for mid in ([["cp"]], [["dc"]], [["cp"], ["rc"]], [["rc"], ["cp"]]):
+                    for k_ in sorted({0, 1, (b_ - a_) // 2, b_ - a_ - 1, -1}):
+                        hist.append([["s", a_, b_, None]] + mid + [["i", k_]])
             for h in hist:
                 for fs in featsets_for(h, names):
                     if not thorough and len(h) == 2 and fs not in ("b", "e", "*"):
+                        continue
+                    if not thorough and len(h) > 2 and fs != "*":
                         continue
                     yield [new, rid, "db", fs, h]
             # features loaded from a GFF file: depth <= 1
